@@ -194,7 +194,8 @@ class SyncFakeEs:
 
 
 # ---------------------------------------------------------------------------------------------------
-def build_track(scn):
+def build_track(scn, lenient=()):
+    """lenient: ids of tasks that set ignore-response-error-level: non-fatal (a failed request never aborts THEM under on-error=abort)."""
     from esrally.track import track
 
     elements = []
@@ -210,6 +211,8 @@ def build_track(scn):
                 kw.update(warmup_time_period=0, time_period=TIME_PERIOD)
             else:
                 kw.update(warmup_iterations=0, iterations=t["reqs"])
+            if t["id"] in lenient:
+                kw.update(params={"ignore-response-error-level": "non-fatal"})
             task = track.Task(**kw)
             tasks_by_id[t["id"]] = task
             leaves.append(task)
@@ -270,7 +273,7 @@ class RaceWorld:
 
     RC = "BenchmarkActor1"
 
-    def __init__(self, scn, seed=0, test_mode=True, on_error="continue", queue_size=None, downsample=1, pp_interval=2, offsets=None, hosts=None, cores=None, full=False):
+    def __init__(self, scn, seed=0, test_mode=True, on_error="continue", queue_size=None, downsample=1, pp_interval=2, offsets=None, hosts=None, cores=None, full=False, lenient=()):
         """full=True: race control is the REAL racecontrol.BenchmarkActor (+ BenchmarkCoordinator, FileRaceStore in scratch,
         in-memory metrics store); the mechanic is a stub actor; the 'user' endpoint plays actor_system.ask()."""
         self.full = full
@@ -394,7 +397,8 @@ class RaceWorld:
         hosts = hosts or ["localhost"]
         cores = cores or W
         self.cfg = build_config(self, test_mode, on_error, queue_size, downsample, cores, hosts)
-        self.track, self.tasks_by_id = build_track(scn)
+        self.lenient = set(lenient)
+        self.track, self.tasks_by_id = build_track(scn, self.lenient)
         if full:
             import shutil
 
